@@ -374,6 +374,10 @@ class C16(Prop):
               "within the dimensions. Proof: C04's fused form of <psi|psi> at the root, wire-by-wire renaming of sums (C16_sum_rename), "
               "delta / zero-padding elimination of the three root wires. Executable forms proved sound: C16_trace_value_checked, "
               "C16_ttndo_ofb_sound, C16_build_contractsb_sound (contracts over Z on every in-range index)"),
+        ("F", "single-site operator, partial (TTNDO/ValueTP.v): absorb_into_open_legs at the ket image of any node keeps the network a well-formed "
+              "density-operator network, so trace_ttndo closes the absorbed network for every tree and k (C16_tp1_absorbed_closed_partial); the "
+              "pure-state diagram <psi|O_c|psi> of C04 as a flat sum of node tensors, conjugate copies and the operator entry "
+              "(C16_tp1_state_value_partial). The equality of the two VALUES (renaming step with the operator atom) is not proved"),
         ("I", "per explored build case (vm_compute): value_case = all structural hypotheses of C16_trace_value (value_hyp: wfsb of both stores, one open "
               "leg per node, ttndo_ofb) hold for the store program of from_ttns against the state built as a store program over the same tree and "
               "dimensions; the three build contracts are exactly what the build comparison checks on the arrays of the same case (root = eye(k), "
